@@ -238,6 +238,8 @@ type config struct {
 	TxCount      int
 	ValChange    bool
 	SkewMaxUs    int64
+	ReplayOld    bool // re-deliver arbitrarily old messages
+	SlowPm       int  // per-mille of deliveries that take seconds instead of milliseconds
 }
 
 type sim struct {
@@ -262,6 +264,8 @@ type sim struct {
 	txSeq    int
 	dsReports []dsReport
 	dirty    bool
+	recent   []heldMsg // pool of old consensus traffic (late-duplicate fault)
+	recentN  int
 	lastProgressCount int64
 	lastProgressAt    time.Duration
 
